@@ -105,6 +105,14 @@ class Ctx:
     def grammar(self):
         """(items, parser) of the whole generated-module grammar, expanded from the library entry"""
         if self._grammar is None:
+            # templates of call-graph-recursive functions are unfolded once per function, not once per template
+            from . import hirx as _H
+            if not hasattr(self, '_cg'):
+                self._cg = _H.CallGraph(self.prog, self.pv)
+            rec = set()
+            for comp in self._cg.sccs():
+                rec |= set(comp)
+            self.ex.recursive_fns = rec
             entry = self.fn('codegen', 'graphql_client_codegen::generate_module_token_stream_inner')
             roots = []
             if entry is not None:
